@@ -343,7 +343,7 @@ def split_goal(g, limit=12):
     if z3.is_implies(g):
         h, c = g.arg(0), g.arg(1)
         ps = split_goal(c, limit)
-        return [z3.Implies(h, p) for p in ps] if len(ps) > 1 else [g]
+        return [z3.Implies(h, p) for p in ps]
     if z3.is_eq(g) and z3.is_bool(g.arg(0)):
         a, b = g.arg(0), g.arg(1)
         return split_goal(z3.Implies(a, b), limit) + split_goal(z3.Implies(b, a), limit)
@@ -353,8 +353,7 @@ def split_goal(g, limit=12):
             _skn[0] += 1
             consts.append(z3.Const('%s!sk%d' % (g.var_name(i), _skn[0]), g.var_sort(i)))
         body = z3.substitute_vars(g.body(), *reversed(consts))
-        ps = split_goal(body, limit)
-        return ps if len(ps) > 1 else [g]
+        return split_goal(body, limit)       # outer universals of a goal are always skolemised
     return [g]
 
 
@@ -458,6 +457,20 @@ def generalise(hyps, goal):
             hyp_ids.add(i)
             if z3.is_app(x):
                 todo.extend(x.children())
+    def messy(t):
+        td = [t]
+        sn = set()
+        while td:
+            y = td.pop()
+            if y.get_id() in sn:
+                continue
+            sn.add(y.get_id())
+            if z3.is_app_of(y, z3.Z3_OP_ITE):
+                return True
+            if z3.is_app(y):
+                td.extend(y.children())
+        return False
+
     pairs = []
     todo = [goal]
     seen = set()
@@ -467,7 +480,7 @@ def generalise(hyps, goal):
         if i in seen or z3.is_quantifier(x) or not z3.is_app(x):
             continue
         seen.add(i)
-        if (z3.is_bv(x) and x.num_args() > 0 and i in hyp_ids and not z3.is_bv_value(x)
+        if (z3.is_bv(x) and x.num_args() > 0 and i in hyp_ids and not z3.is_bv_value(x) and messy(x)
                 and x.decl().kind() not in (z3.Z3_OP_ZERO_EXT, z3.Z3_OP_SIGN_EXT, z3.Z3_OP_CONCAT, z3.Z3_OP_ITE, z3.Z3_OP_SELECT)
                 and x.decl().kind() != z3.Z3_OP_UNINTERPRETED):
             _gen_n[0] += 1
@@ -524,22 +537,22 @@ def check(pc, goal, timeout_ms):
         return [p for p, c in zip(pc, chosen) if c]
 
     tried = set()
+    cap = min(8000, timeout_ms * 0.12)
     for name, (mx, heavy, depth) in (('L2', (80, False, 2)), ('L3', (200, False, 3)), ('L4', (1500, True, 2))):
         sub = select(mx, heavy, depth)
         if len(sub) == len(pc) or len(sub) in tried:
             continue
         tried.add(len(sub))
-        r, dt, s = _run('simp', sub, goal, min(8000, timeout_ms * 0.12), seed)
+        gen = generalise(sub, goal)
+        if gen is not None:
+            r, dt, s = _run('simp', gen[0], gen[1], min(3000, cap), seed)
+            total += dt
+            if r == z3.unsat:
+                return 'unsat', total, None, '%s-generalised:%d/%d' % (name, len(sub), len(pc))
+        r, dt, s = _run('simp', sub, goal, cap, seed)
         total += dt
         if r == z3.unsat:
             return 'unsat', total, None, '%s:%d/%d' % (name, len(sub), len(pc))
-        if name == 'L3':
-            gen = generalise(sub, goal)
-            if gen is not None:
-                r, dt, s = _run('simp', gen[0], gen[1], min(8000, timeout_ms * 0.12), seed)
-                total += dt
-                if r == z3.unsat:
-                    return 'unsat', total, None, 'L3-generalised:%d/%d' % (len(sub), len(pc))
     reasons = []
     tot_share = sum(SHARES.get(x, 0.3) for x in STRATEGIES)
     for strat in STRATEGIES:
